@@ -260,6 +260,16 @@ def run(cx):
         cx.guard('C06.S2', hits, {'entry-not-expired': r'^lt:Instant\(Instant::now\(\),' + ENTRY + r'\.0\)$'}, fn=vg)
 
     # ---------------------------------------------------------------- H helper semantics the guards above rely on (rules/helpers.py)
+    # ---------------- S3: the unsigned fallback of verify_dnskey_rrset comes after the signatures
+    # a DNSKEY RRset whose keys are all trust anchors / DS-authenticated is accepted without a signature (the root key set), with
+    # adjusted_ttl None - i.e. with the received TTL and no signature lifetime for the validation cache.  When the set DOES carry a
+    # valid RRSIG the signature path must win (it caps the TTL with RRSIG::authenticated_ttl): the fallback is reached only when the
+    # RRSIG loop is exhausted
+    vk = cx.fn('C06.S3', N + 'DnssecDnsHandle::verify_dnskey_rrset::{closure#0}')
+    if vk:
+        fb = [s_ for s_ in cx.returns(vk, r'^Result::Ok\(RrsetProof\(') if re.search(r'Option::unwrap\(Vec::pop\(', s_.term)]
+        cx.guard('C06.S3', fb, {'signatures-tried-before-the-unsigned-fallback': r'^!ok\(<Enumerate<I> as Iterator>::next\(Iterator::enumerate\(slice::iter\(\^arg2\.rrset\.signatures\)\)\)\)$'
+                                                                                  r"|^!ok\(<Iter<'a;T> as Iterator>::next\(slice::iter\(\^arg2\.rrset\.signatures\)\)\)$"}, expect=1, fn=vk)
     helpers.check(cx, 'C06.H', ['DNSKEY::zone_key', 'DNSKEY::revoke', 'Proof::is_secure', 'SerialNumber::partial_cmp', 'LowerName::num_labels'])
 
     # ---------------------------------------------------------------- N1 argument names agree with the parameters they are bound to (engine/argnames.py)
